@@ -245,7 +245,9 @@ const TEMPLATES: &[(&str, &str)] = &[
     ("mul-add64", "let x: Int64 = {X}; let y: Int64 = {Y}; println(\"${x.wrapping_mul(y)} ${x.wrapping_add(y)} ${x.wrapping_sub(y)}\"); println(\"${x * y}\"); println(\"${x + y}\"); println(\"${x - y}\");"),
     ("neg-abs", "let x: Int64 = {X}; println(\"${x.wrapping_neg()}\"); println(\"${-x}\"); println(\"${x.abs()}\"); let y: Int32 = {W}; println(\"${-y}\"); println(\"${y.abs()}\");"),
     ("div-mod32", "let x: Int32 = {W}; let y: Int32 = {W2}; println(\"${x / y}\"); println(\"${x % y}\"); println(\"${x * y}\");"),
-    ("overflowing", "let x: Int64 = {X}; let y: Int64 = {Y}; let a = x.overflowing_add(y); let m = x.overflowing_mul(y); let s = x.overflowing_sub(y); println(\"${a.0} ${a.1} ${m.0} ${m.1} ${s.0} ${s.1}\");"),
+    ("overflowing", "let x: Int64 = {X}; let y: Int64 = {Y}; let a = x.overflowing_add(y); let m = x.overflowing_mul(y); let s = x.overflowing_sub(y); println(\"${a.0} ${a.1} ${m.0} ${m.1} ${s.0} ${s.1}\"); if y != 0 { let d = x.overflowing_div(y); let r = x.overflowing_mod(y); println(\"${d.0} ${d.1} ${r.0} ${r.1}\"); }"),
+    ("overflowing32", "let x: Int32 = {W}; let y: Int32 = {W2}; let a = x.overflowing_add(y); let m = x.overflowing_mul(y); let s = x.overflowing_sub(y); println(\"${a.0} ${a.1} ${m.0} ${m.1} ${s.0} ${s.1}\"); if y != 0i32 { let d = x.overflowing_div(y); let r = x.overflowing_mod(y); println(\"${d.0} ${d.1} ${r.0} ${r.1}\"); }"),
+    ("div-min", "let x: Int32 = (-2147483647i32 - 1i32); let y: Int32 = {W}; let p: Int64 = (-9223372036854775807 - 1); let q: Int64 = {X}; println(\"pairs\"); if y != 0i32 && y != -1i32 { println(\"${x / y} ${x % y}\"); } if q != 0 && q != -1 { println(\"${p / q} ${p % q}\"); } println(\"${x.wrapping_neg()} ${p.wrapping_neg()}\"); let m1: Int32 = {W2}; if m1 == -1i32 { println(\"${x % m1}\"); println(\"${x / m1}\"); }"),
     ("bits", "let x: Int64 = {X}; println(\"${x.count_zero_bits()} ${x.count_one_bits()} ${x.count_zero_bits_leading()} ${x.count_one_bits_leading()} ${x.count_zero_bits_trailing()} ${x.count_one_bits_trailing()}\"); let y: Int32 = {W}; println(\"${y.count_zero_bits_leading()} ${y.count_one_bits_trailing()}\");"),
     ("float-cmp", "let a: Float64 = {F}; let b: Float64 = {F2}; println(\"${a < b} ${a <= b} ${a > b} ${a >= b} ${a == b} ${a != b}\"); let o = a.cmp(b); println(\"${o == std::Ordering::Less} ${o == std::Ordering::Equal} ${o == std::Ordering::Greater}\"); let c: Float32 = a.to_float32(); let d: Float32 = b.to_float32(); let p = c.cmp(d); println(\"${p == std::Ordering::Less} ${p == std::Ordering::Equal} ${p == std::Ordering::Greater} ${c < d}\");"),
     ("int-cmp", "let a: Int64 = {X}; let b: Int64 = {Y}; let o = a.cmp(b); println(\"${o == std::Ordering::Less} ${o == std::Ordering::Greater}\"); let c: UInt8 = a.to_uint8(); let d: UInt8 = b.to_uint8(); let p = c.cmp(d); println(\"${p == std::Ordering::Less} ${p == std::Ordering::Greater} ${c < d} ${c >= d}\"); let e: Int32 = {W}; let f: Int32 = {W2}; let q = e.cmp(f); println(\"${q == std::Ordering::Less} ${q == std::Ordering::Greater}\");"),
@@ -260,7 +262,7 @@ pub fn gen_hostile(c: &mut Choices) -> DiffCase {
     // templates that cannot trap are instantiated eight times per program (each in its own scope) so that
     // pairs of boundary values (NaN x ordered, MIN x -1, …) are covered densely; the others once, because the
     // first trap ends the program
-    const NEVER_TRAPS: &[&str] = &["float-cmp", "float-arith", "int-cmp", "float-to-int", "int-narrow", "bits", "overflowing", "rotate", "sort", "string-parse"];
+    const NEVER_TRAPS: &[&str] = &["float-cmp", "float-arith", "int-cmp", "float-to-int", "int-narrow", "bits", "overflowing", "overflowing32", "rotate", "sort", "string-parse"];
     let copies = if NEVER_TRAPS.contains(&name) { 8 } else { 1 };
     let mut body = String::new();
     let (t, v) = ELEMS[c.below(ELEMS.len())];
